@@ -51,8 +51,23 @@ pub fn corpus_stage(cfg: &Cfg, rep: &mut Report, pfx: &'static str, stage: &'sta
         let e = corpus[(ctx.index % corpus.len() as u64) as usize];
         let shape = format!("variants={} fields={} suffixed={}", e.mnemonics.len(), e.field.iter().filter(|f| **f).count(), e.mnemonics.iter().filter(|m| m.last().map_or(false, |c| c.is_ascii_digit())).count());
         ctx.count(&format!("enum-shape.variants.{:02}", e.mnemonics.len()));
+        if e.mnemonics.len() > 256 {
+            ctx.count("enum-shape.more-than-256-variants");
+        }
         let _ = shape;
+        // large enumerations: one case covers a window of 24 variants (48 repetitions of the quick tier cover all 1100)
+        let nvar = e.mnemonics.len();
+        let (lo, hi) = if nvar <= 40 {
+            (0, nvar)
+        } else {
+            let windows = (nvar + 23) / 24;
+            let k = ((ctx.index / corpus.len() as u64) as usize) % windows;
+            (k * 24, (k * 24 + 24).min(nvar))
+        };
         for (vi, m) in e.mnemonics.iter().enumerate() {
+            if vi < lo || vi >= hi {
+                continue;
+            }
             bump(ctx, 1);
             // each variant reports its own mnemonic
             if (e.mnemonic_of)(vi) != *m {
@@ -76,9 +91,23 @@ pub fn corpus_stage(cfg: &Cfg, rep: &mut Report, pfx: &'static str, stage: &'sta
             // candidate families for this variant + the other variants' forms (cross-variant near misses)
             let mut cands = Vec::new();
             candidates(rng, m, &mut cands);
-            for o in e.mnemonics.iter() {
-                cands.push(o.to_vec());
-                cands.push(o.to_ascii_lowercase());
+            if e.mnemonics.len() <= 40 {
+                for o in e.mnemonics.iter() {
+                    cands.push(o.to_vec());
+                    cands.push(o.to_ascii_lowercase());
+                }
+            } else {
+                // large enumerations: the neighbours, the variants 2^8 / 2^10 / 2^16 positions away (an ordinal kept in too
+                // few bits aliases exactly those) and a random handful
+                let n = e.mnemonics.len();
+                let mut others: Vec<usize> = vec![(vi + 1) % n, (vi + n - 1) % n, (vi + 256) % n, (vi + n - (256 % n)) % n, (vi + 1024) % n, (vi + 65536) % n, vi % 256, vi % 1024];
+                for _ in 0..6 {
+                    others.push(rng.usize(n));
+                }
+                for oi in others {
+                    cands.push(e.mnemonics[oi].to_vec());
+                    cands.push(e.mnemonics[oi].to_ascii_lowercase());
+                }
             }
             // words that are keywords for other parameter types: to an enumeration they are character data like any other
             for w in [&b"DEF"[..], b"DEFault", b"def1", b"MIN", b"MAXimum", b"UP", b"DOWN", b"ON", b"OFF", b"AUTO", b"ONCE", b"INF", b"NAN", b"TRUE", b"NONE"] {
